@@ -226,7 +226,7 @@ def lossy(c):
 
 
 def judge(records):
-    bad, res = trace.validate("RateControlTrace", records)
+    bad, res = trace.validate("RateControlTrace", records, max_lines=10 ** 9)  # one run: the spec prints its APPLIED totals at the end
     ap = cc.printed_json(res, "APPLIED")
     return bad, (ap[-1] if ap else {}), res
 
